@@ -540,6 +540,26 @@ def real_shape(d):
     return "not-a-shape"
 
 
+def spell(fs, key):
+    """The same feature set in one of the spellings the API accepts (any iterable of strings or Feature
+    members): the container type must not matter."""
+    from amaranth_soc import wishbone
+    v = key % 7
+    if v == 0:
+        return list(fs)
+    if v == 1:
+        return set(fs)
+    if v == 2:
+        return frozenset(fs)
+    if v == 3:
+        return tuple(fs)
+    try:
+        ms = [wishbone.Feature(f) for f in fs]
+    except ValueError:
+        return list(fs)             # an invalid spelling ("bogus") stays a string
+    return [ms, frozenset(ms), (m for m in ms)][v - 4]
+
+
 def build_sig(a):
     from amaranth_soc import csr, wishbone, event, gpio
     c = a["cls"]
@@ -552,7 +572,8 @@ def build_sig(a):
     if c == "wb":
         fs = [f for f, on in zip(FE, a["feat"]) if on] + (["bogus"] if a["bad"] else [])
         kw = {} if a["gran"] is None else {"granularity": a["gran"]}
-        return wishbone.Signature(addr_width=a["aw"], data_width=a["dw"], features=fs, **kw)
+        key = a["aw"] * 3 + a["dw"] + sum((k + 1) * b for k, b in enumerate(a["feat"]))
+        return wishbone.Signature(addr_width=a["aw"], data_width=a["dw"], features=spell(fs, key), **kw)
     if c == "src":
         return event.Source.Signature(trigger=a["trigger"])
     return gpio.PinSignature()
@@ -684,7 +705,8 @@ def build_comp(c):
     fs = [f for f, on in zip(FE, c["feat"]) if on] + (["bogus"] if c["bad"] else [])
     kw = {} if c["gran"] is None else {"granularity": c["gran"]}
     cls = wishbone.Decoder if k == "wbdec" else wishbone.Arbiter
-    d = cls(addr_width=c["aw"], data_width=c["dw"], features=fs, **kw)
+    key = c["aw"] * 3 + c["dw"] + sum((k + 1) * b for k, b in enumerate(c["feat"]))
+    d = cls(addr_width=c["aw"], data_width=c["dw"], features=spell(fs, key), **kw)
     return d, [("bus", d.bus)]
 
 
